@@ -8,10 +8,11 @@ CONSTANTS
   MaxLen = 0
   GenOn = FALSE
   Fam = "c05"
-  MaxKill = 2
+  MaxKill = 1
   MaxDetach = 1
   MaxEnv = 0
   NPS = 1
+  MaxDbf = 1
   MaxFail = 0
 INVARIANTS AckedExclusive AckedOnDisk OneWriter GcAlone
 VIEW MCView
